@@ -179,6 +179,35 @@ func (w *world) step() {
 			return
 		}
 	}
+	if w.refreshProbeN > 0 {
+		w.refreshProbeN--
+		rp := w.refreshProbe
+		if now := time.Now(); w.draw("refreshProbe?", 100) < 70 && now.Before(rp.newExp.Add(-3*time.Second)) {
+			if !now.After(rp.origExp) {
+				// just past the instant the reservation would have ended without the refresh
+				d := rp.origExp.Sub(now) + time.Duration(1+w.draw("pastOrig", 2))*time.Second
+				if now.Add(d).Before(rp.newExp.Add(-2 * time.Second)) {
+					w.label("clock-passes-original-expiry-of-a-refreshed-reservation")
+					w.advance(d)
+				}
+			}
+			now = time.Now()
+			var cand []*peerSt
+			for _, p := range w.peers {
+				if !w.mayLive(p, now) {
+					cand = append(cand, p)
+				}
+			}
+			if len(cand) > 0 {
+				p := cand[w.draw("refreshProbePeer", len(cand))]
+				if now.After(rp.origExp) {
+					w.label("reserve-from-the-address-of-a-refreshed-reservation-past-its-original-expiry")
+				}
+				w.opReserve(p, w.connAtIP(p, rp.ip), "")
+				return
+			}
+		}
+	}
 	if w.goneProbeN > 0 {
 		w.goneProbeN--
 		if g := w.goneProbe; g.limitedOnly() && w.draw("gone?", 100) < 75 && w.stepProbeLimitedOnly(g) {
